@@ -499,7 +499,7 @@ class FrameOps:
     def _apply_growth(self, e, op, site, exp, cls, fn, new_keys, new_cells, supplied_keys):
         '''Run growth `fn`; on success append (new_keys, new_cells) to the model.'''
         m = e.model
-        st, r = call(fn, e.obj)
+        st, r = self._grow_call(e, fn, exp)
         if st == 'raise':
             return self._growth_failed(e, op, site, cls, supplied_keys, r, 'accept' if exp == 'accept' else exp, fn)
         if exp in ('must', 'fail'):
